@@ -198,7 +198,10 @@ def build_source(r, tier):
     verbs = [r.choice([["cat"], ["cat", "-n"], ["sort", "-f", "a"], ["put", "$z = NR"], ["tac"], ["head", "-n", "4"], ["count-similar", "-g", "a"]])]
     if fmt == "nidx":
         verbs = [r.choice([["cat"], ["cat", "-n"], ["tac"]])]
-    return {"kind": "source", "fmt": fmt, "text": text, "verbs": verbs, "cseed": r.randint(1, 1 << 40), "oflags": r.choice([[], ["--ojson"], ["--ocsv"]]),
+    # file names needing escaping when handed to a shell (--prepipe) must still name the same bytes
+    fname = r.choice(["data.in"] * 6 + ["it's.dat", "q\"q.dat", "do$llar.dat", "sp ace.dat", "semi;colon.dat", "amp&ersand.dat", "st*r.dat", "(paren).dat",
+                                      "back`tick.dat", "bang!.dat", "hash#.dat", "\u00fcn\u00ef.dat", "two  spaces.dat", "q'q\"q.dat", "$(echo x).dat", "a|b.dat", "a>b.dat"])
+    return {"kind": "source", "fname": fname, "fmt": fmt, "text": text, "verbs": verbs, "cseed": r.randint(1, 1 << 40), "oflags": r.choice([[], ["--ojson"], ["--ocsv"]]),
             "nvar": 6 if tier == "quick" else 12}
 
 
@@ -212,8 +215,9 @@ def source_spec(case, src, rng):
     chain = gen.chain_args(case["verbs"])
     base = ["mlr"] + iflags + case["oflags"]
     kw = {}
+    fn = case.get("fname", "data.in")
     if src == "file":
-        args, kw["files"] = base + chain + ["data.in"], {"data.in": raw}
+        args, kw["files"] = base + chain + [fn], {fn: raw}
     elif src == "stdin":
         arr = None
         if rng.chance(0.7) and raw:
@@ -223,27 +227,27 @@ def source_spec(case, src, rng):
                 arr.append(pos)
         args, kw["stdin"], kw["arrivals"] = base + chain, raw, arr
     elif src == "from":
-        args, kw["files"] = ["mlr", "--from", "data.in"] + iflags + case["oflags"] + chain, {"data.in": raw}
+        args, kw["files"] = ["mlr", "--from", fn] + iflags + case["oflags"] + chain, {fn: raw}
     elif src == "gz_ext":
-        args, kw["files"] = base + chain + ["data.in.gz"], {"data.in.gz": gzip.compress(raw, mtime=0)}
+        args, kw["files"] = base + chain + [fn + ".gz"], {fn + ".gz": gzip.compress(raw, mtime=0)}
     elif src == "gz_flag":
-        args, kw["files"] = ["mlr", "--gzin"] + iflags + case["oflags"] + chain + ["data.bin"], {"data.bin": gzip.compress(raw, mtime=0)}
+        args, kw["files"] = ["mlr", "--gzin"] + iflags + case["oflags"] + chain + [fn + ".bin"], {fn + ".bin": gzip.compress(raw, mtime=0)}
     elif src == "z_ext":
-        args, kw["files"] = base + chain + ["data.in.z"], {"data.in.z": zlib.compress(raw)}
+        args, kw["files"] = base + chain + [fn + ".z"], {fn + ".z": zlib.compress(raw)}
     elif src == "z_flag":
-        args, kw["files"] = ["mlr", "--zin"] + iflags + case["oflags"] + chain + ["data.bin"], {"data.bin": zlib.compress(raw)}
+        args, kw["files"] = ["mlr", "--zin"] + iflags + case["oflags"] + chain + [fn + ".bin"], {fn + ".bin": zlib.compress(raw)}
     elif src == "bz2_ext":
-        args, kw["files"] = base + chain + ["data.in.bz2"], {"data.in.bz2": bz2.compress(raw)}
+        args, kw["files"] = base + chain + [fn + ".bz2"], {fn + ".bz2": bz2.compress(raw)}
     elif src == "bz2_flag":
-        args, kw["files"] = ["mlr", "--bz2in"] + iflags + case["oflags"] + chain + ["data.bin"], {"data.bin": bz2.compress(raw)}
+        args, kw["files"] = ["mlr", "--bz2in"] + iflags + case["oflags"] + chain + [fn + ".bin"], {fn + ".bin": bz2.compress(raw)}
     elif src == "gz_stdin":
         args, kw["stdin"] = ["mlr", "--gzin"] + iflags + case["oflags"] + chain, gzip.compress(raw, mtime=0)
     elif src == "prepipe":
-        args, kw["files"] = ["mlr", "--prepipe", "cat"] + iflags + case["oflags"] + chain + ["data.in"], {"data.in": raw}
+        args, kw["files"] = ["mlr", "--prepipe", "cat"] + iflags + case["oflags"] + chain + [fn], {fn: raw}
     elif src == "prepipex":
-        args, kw["files"] = ["mlr", "--prepipex", "cat"] + iflags + case["oflags"] + chain + ["data.in"], {"data.in": raw}
+        args, kw["files"] = ["mlr", "--prepipex", "cat"] + iflags + case["oflags"] + chain + [fn], {fn: raw}
     elif src == "file_twice_from":
-        args, kw["files"] = ["mlr", "--from", "data.in"] + iflags + case["oflags"] + chain, {"data.in": raw}
+        args, kw["files"] = ["mlr", "--from", fn] + iflags + case["oflags"] + chain, {fn: raw}
     return args, kw
 
 
